@@ -12,10 +12,10 @@ git diff -- src > patch.diff
 TESTLINE=$(cargo test --offline 2>&1 | grep "test result" | head -1)
 cargo build --offline >/dev/null 2>&1
 bash demo.sh > demo.with.log 2>&1; RC_WITH=$?
-git stash -q -- src
+git apply -R patch.diff || { echo "CANNOT REVERT PATCH"; exit 2; }
 cargo build --offline >/dev/null 2>&1
 bash demo.sh > demo.without.log 2>&1; RC_WITHOUT=$?
-git stash pop -q
+git apply patch.diff
 echo "id=$ID tests='$TESTLINE' demo_with_change_rc=$RC_WITH demo_without_change_rc=$RC_WITHOUT"
 case "$TESTLINE" in *"605 passed; 0 failed"*) T_OK=1;; *) T_OK=0;; esac
 if [ "$T_OK" = 1 ] && [ "$RC_WITH" != 0 ] && [ "$RC_WITHOUT" = 0 ]; then
